@@ -1170,7 +1170,7 @@ pub fn image_for(sc: &Sc) -> Vec<u8> {
         extras: vec![],
         entry_seg: 0,
         entry_off: sc.entry - sc.code_start,
-        syms: sc.symbols.iter().map(|(off, name)| SymSpec { name: Some(name.clone()), seg: 0, off: *off, defined: true }).collect(),
+        syms: sc.symbols.iter().map(|(off, name)| SymSpec { name: Some(name.clone()), seg: 0, off: *off, defined: true, info: None }).collect(),
         sections: true,
         entry_code: String::new(),
     };
